@@ -6,6 +6,12 @@ package main
 //	new <mem|level|pndb> <version>      always first
 //	ver <n>                             set trie version
 //	layer                               continue in a fresh LevelNodeDB level over the store used so far
+//	relevel <mem|pndb> <all|leaves|odd> <save|mergestate>
+//	                                    continue in a trie over a LevelNodeDB whose CURRENT level (memory / persistent)
+//	                                    was filled beforehand and is only read at first: the nodes of the present state
+//	                                    are split - all / the leaves / those with an odd last key byte go into the new
+//	                                    current level (through another trie's SaveChanges, or MergeState), the rest into
+//	                                    a fresh lower store; the state is readable only through both levels
 //	ins <path> <hexvalue>               Insert
 //	insempty <path>                     Insert of an empty value (must behave as Delete)
 //	insbig <path>                       Insert of a value of MPTMaxAllowableNodeSize+1 bytes (must be rejected)
@@ -215,6 +221,48 @@ func runMptMap(ops []string, checkCanon bool) CaseResult {
 			st.mpt = newMPT(util.NewLevelNodeDB(util.NewMemoryNodeDB(), st.mpt.GetNodeDB(), false), st.version, st.mpt.GetRoot())
 			tags["layered-over-content"] = true
 			out = "ok"
+		case "relevel":
+			out = guard(func() string {
+				ctx := context.Background()
+				upperSrc, lower := util.NewMemoryNodeDB(), util.NewMemoryNodeDB()
+				err := st.mpt.Iterate(ctx, func(ctx context.Context, path util.Path, key util.Key, node util.Node) error {
+					if node == nil {
+						return nil
+					}
+					_, isLeaf := node.(*util.LeafNode)
+					up := f[2] == "all" || (f[2] == "leaves" && isLeaf) || (f[2] == "odd" && key[len(key)-1]%2 == 1)
+					dst := lower
+					if up {
+						dst = upperSrc
+					}
+					return dst.PutNode(append(util.Key(nil), key...), node.CloneNode())
+				}, util.NodeTypeLeafNode|util.NodeTypeFullNode|util.NodeTypeExtensionNode)
+				if err != nil {
+					return errKind(err)
+				}
+				var upper util.NodeDB = util.NewMemoryNodeDB()
+				if f[1] == "pndb" {
+					upper = openStore("pndb")
+				}
+				if f[3] == "save" {
+					// another trie takes the nodes over (MergeDB) and saves its changes into the level
+					other := newMPT(util.NewMemoryNodeDB(), st.version, nil)
+					if err := other.MergeDB(upperSrc, st.mpt.GetRoot(), nil); err != nil {
+						return errKind(err)
+					}
+					if err := other.SaveChanges(ctx, upper, false); err != nil {
+						return errKind(err)
+					}
+				} else if err := util.MergeState(ctx, upperSrc, upper); err != nil {
+					return errKind(err)
+				}
+				st.mpt = newMPT(util.NewLevelNodeDB(upper, lower, false), st.version, st.mpt.GetRoot())
+				return "ok"
+			})
+			if out != "ok" {
+				fail(i, "building the layered store failed: %s", out)
+			}
+			tags["prefilled-current-level:"+f[1]] = true
 		case "ver":
 			v, _ := strconv.ParseInt(f[1], 10, 64)
 			if v != st.version {
@@ -548,7 +596,13 @@ func genMptMap(fixedVersion bool) func(r *rand.Rand, tier string, idx int) []str
 			case x < 94 && idx%12 == 0:
 				ops = append(ops, "insbig "+p)
 			case x < 96 && idx%2 == 1:
-				ops = append(ops, "layer")
+				if idx%4 == 3 {
+					// a layered store whose upper level already holds nodes and is read before it is written: the full
+					// observation (lookups of every used path, iteration) follows the op at once
+					ops = append(ops, fmt.Sprintf("relevel %s %s %s", []string{"mem", "pndb"}[r.Intn(2)], []string{"all", "leaves", "odd"}[r.Intn(3)], []string{"save", "mergestate"}[r.Intn(2)]), "get "+p, "iter")
+				} else {
+					ops = append(ops, "layer")
+				}
 			default:
 				if !fixedVersion {
 					if ver < 1<<63-8 { // versions are non-negative int64 (block rounds): never wrap
